@@ -31,6 +31,7 @@ DEFAULT_CFG = {
     "items_join_target": True,
     "pub_ctx": True,  # publishes may copy another context variable
     "items_conc": True,  # with-items tasks may have a concurrency limit
+    "retry_expr": False,  # retry count / delay may be expressions over vars rc / rd
 }
 
 
@@ -138,6 +139,7 @@ def wf_ir(draw, c=None):
                 tasks[nm]["join"] = "all"
 
     # with-items / retry / delay decorations
+    need_rc = []
     for nm in names:
         t = tasks[nm]
         if c["items"] and draw(st.floats(0, 1)) < c["items"]:
@@ -154,8 +156,17 @@ def wf_ir(draw, c=None):
                 t["retry"]["when"] = E(w, lp(draw))
             if draw(st.booleans()):
                 t["retry"]["delay"] = draw(st.integers(0, 3))
+            if c["retry_expr"] and draw(st.integers(0, 2)) == 0:
+                t["retry"]["count"] = E(["ctx", "rc"], lp(draw), draw(st.integers(0, 3)))
+                need_rc.append(1)
+            if c["retry_expr"] and draw(st.integers(0, 3)) == 0:
+                t["retry"]["delay"] = E(["ctx", "rd"], lp(draw), draw(st.integers(0, 3)))
+                need_rc.append(1)
         if c["delay"] and draw(st.floats(0, 1)) < c["delay"]:
             t["delay"] = draw(st.integers(0, 5))
+    if need_rc:
+        ir["vars"].append(["rc", draw(st.integers(0, 3))])
+        ir["vars"].append(["rd", draw(st.integers(0, 4))])
     if c["retry_cmd"]:
         for nm in names:
             if draw(st.integers(0, 7)) == 0 and not tasks[nm].get("retry"):
